@@ -190,6 +190,14 @@ func runC20(c *config) {
 		rs = append(rs, c20String(r, 10))
 	}
 	c20Axioms(c, rs, "random")
+	// one prefix, numbers that share leading digits and differ in their zeros (1002 / 103 / 200, 1001 / 102): where
+	// a common prefix of two names ends inside a digit run
+	var zs []string
+	for _, n := range []int{1, 2, 9, 10, 11, 19, 20, 99, 100, 101, 102, 103, 110, 199, 200, 206, 999, 1000, 1001, 1002, 1010, 1100, 2005, 2050, 10000, 10002} {
+		zs = append(zs, fmt.Sprintf("s%d", n), fmt.Sprintf("x.%d.y", n))
+	}
+	zs = append(zs, "s", "s0", "s00", "s01", "s010", "s0100")
+	c20Axioms(c, zs, "shared_digit_prefix")
 
 	// 5. numeric value of digit runs: value(a) < value(b) => p+a+r < p+b+r'
 	for i := 0; i < 3000*c.scale; i++ {
